@@ -140,66 +140,52 @@ end Prim
 
 /-! ### guards (from the translator) -/
 
-inductive Guard
-  | idEmpty | targetEmpty | txIndexZero | revZero | verZero | revNonZero | verNonZero
-  | keyEmpty | ttypeEmpty | tverEmpty | unknown
-deriving DecidableEq, Repr
+open OnosVerif.Generated (GField GGuard)
 
-def Guard.ofString (s : String) : Guard :=
-  if s == "ID == \"\"" then .idEmpty
-  else if s == "ID.Target.ID == \"\"" then .idEmpty
-  else if s == "ID.Target.Type == \"\"" then .ttypeEmpty
-  else if s == "ID.Target.Version == \"\"" then .tverEmpty
-  else if s == "TargetID == \"\"" then .targetEmpty
-  else if s == "TransactionIndex == 0" then .txIndexZero
-  else if s == "Revision == 0" then .revZero
-  else if s == "Version == 0" then .verZero
-  else if s == "Revision != 0" then .revNonZero
-  else if s == "Version != 0" then .verNonZero
-  else if s == "Key == \"\"" then .keyEmpty
-  else .unknown
+abbrev Guard := GGuard
 
+/-- does `if obj.<field> ==/!= <zero value>` hold of the caller's object?  A condition the translator
+    could not classify (`other`) never fires (the correspondence check then shows the difference). -/
 def Guard.fires (g : Guard) (o : Obj) : Bool :=
-  match g with
-  | .idEmpty => o.id.isEmpty
-  | .targetEmpty => o.target.isEmpty
-  | .txIndexZero => o.txIndex == 0
-  | .revZero => o.revision == 0
-  | .verZero => o.version == 0
-  | .revNonZero => o.revision != 0
-  | .verNonZero => o.version != 0
-  | .keyEmpty => o.key.isEmpty
-  | .ttypeEmpty => o.ttype.isEmpty
-  | .tverEmpty => o.tver.isEmpty
-  | .unknown => false
+  match g.field with
+  | .id => o.id.isEmpty == g.isZero
+  | .targetID => o.target.isEmpty == g.isZero
+  | .txIndex => (o.txIndex == 0) == g.isZero
+  | .revision => (o.revision == 0) == g.isZero
+  | .version => (o.version == 0) == g.isZero
+  | .key => o.key.isEmpty == g.isZero
+  | .targetType => o.ttype.isEmpty == g.isZero
+  | .targetVersion => o.tver.isEmpty == g.isZero
+  | .other => false
+
+/-- `if obj.Version == 0 { return errors.NewInvalid(…) }` -/
+def verZero : Guard := ⟨.version, true⟩
 
 inductive Meth | create | update | updateStatus
 deriving DecidableEq, Repr
 
 open OnosVerif.Generated in
-def guardTexts : Kind → Meth → List String
+def guards : Kind → Meth → List Guard
   | .tx2, .create => v2TxCreateGuards | .tx2, .update => v2TxUpdateGuards | .tx2, .updateStatus => v2TxUpdateStatusGuards
   | .prop2, .create => v2PropCreateGuards | .prop2, .update => v2PropUpdateGuards | .prop2, .updateStatus => v2PropUpdateStatusGuards
   | .cfg2, .create => v2CfgCreateGuards | .cfg2, .update => v2CfgUpdateGuards | .cfg2, .updateStatus => v2CfgUpdateStatusGuards
   | .tx3, .create => v3TxCreateGuards | .tx3, .update => v3TxUpdateGuards | .tx3, .updateStatus => v3TxUpdateStatusGuards
   | .cfg3, .create => v3CfgCreateGuards | .cfg3, .update => v3CfgUpdateGuards | .cfg3, .updateStatus => v3CfgUpdateStatusGuards
 
-def guards (k : Kind) (m : Meth) : List Guard := (guardTexts k m).map Guard.ofString
-
 open OnosVerif.Generated in
 /-- the field passed to `IfVersion` by `Update` / `UpdateStatus`. -/
-def ifVersionText : Kind → Meth → String
+def ifVersionField : Kind → Meth → GField
   | .tx2, .update => v2TxUpdateIfVersion | .tx2, .updateStatus => v2TxUpdateStatusIfVersion
   | .prop2, .update => v2PropUpdateIfVersion | .prop2, .updateStatus => v2PropUpdateStatusIfVersion
   | .cfg2, .update => v2CfgUpdateIfVersion | .cfg2, .updateStatus => v2CfgUpdateStatusIfVersion
   | .tx3, .update => v3TxUpdateIfVersion | .tx3, .updateStatus => v3TxUpdateStatusIfVersion
   | .cfg3, .update => v3CfgUpdateIfVersion | .cfg3, .updateStatus => v3CfgUpdateStatusIfVersion
-  | _, .create => ""
+  | _, .create => .other
 
 /-- the expected version the wrapper hands to the primitive: the caller's `Version` when the code says
     `IfVersion(primitive.Version(obj.Version))`, otherwise 0 = unconditional. -/
 def ifVersionOf (k : Kind) (m : Meth) (o : Obj) : Nat :=
-  if ifVersionText k m == "Version" then o.version else 0
+  if ifVersionField k m = .version then o.version else 0
 
 open OnosVerif.Generated in
 def revisionInc : Kind → Meth → Bool
@@ -213,27 +199,27 @@ def revisionInc : Kind → Meth → Bool
 open OnosVerif.Generated in
 /-- `Append` (indexed log) or `Insert` (plain map). -/
 def createIndexed : Kind → Bool
-  | .tx2 => v2TxCreatePrim == "Append" | .prop2 => v2PropCreatePrim == "Append" | .cfg2 => v2CfgCreatePrim == "Append"
-  | .tx3 => v3TxCreatePrim == "Append" | .cfg3 => v3CfgCreatePrim == "Append"
+  | .tx2 => v2TxCreateAppends | .prop2 => v2PropCreateAppends | .cfg2 => v2CfgCreateAppends
+  | .tx3 => v3TxCreateAppends | .cfg3 => v3CfgCreateAppends
 
 open OnosVerif.Generated in
-def createDefaults : Kind → List String
+/-- `obj.Revision = n` of `Create`. -/
+def createRevision : Kind → Nat
+  | .tx2 => v2TxCreateRevision | .prop2 => v2PropCreateRevision | .cfg2 => v2CfgCreateRevision
+  | .tx3 => v3TxCreateRevision | .cfg3 => v3CfgCreateRevision
+
+open OnosVerif.Generated in
+def createDefaults : Kind → List Guard
   | .tx2 => v2TxCreateDefaults | .prop2 => v2PropCreateDefaults | .cfg2 => v2CfgCreateDefaults
   | .tx3 => v3TxCreateDefaults | .cfg3 => v3CfgCreateDefaults
-
-def posOf (x : String) : List String → Nat
-  | [] => 0
-  | y :: ys => if x == y then 0 else posOf x ys + 1
 
 open OnosVerif.Generated in
 /-- configuration stores: `s.store(…)` (the values half) is called before the entry compare-and-set. -/
 def valuesBeforeCas : Kind → Meth → Bool
-  | .cfg2, .update => posOf "s.store" v2CfgUpdateCalls < posOf "s.configurations.Update" v2CfgUpdateCalls
-  | .cfg2, .updateStatus => posOf "s.store" v2CfgUpdateStatusCalls < posOf "s.configurations.Update" v2CfgUpdateStatusCalls
-  | .cfg2, .create => posOf "s.store" v2CfgCreateCalls < posOf "s.configurations.Insert" v2CfgCreateCalls
-  | .cfg3, .update => posOf "s.store" v3CfgUpdateCalls < posOf "s.configurations.Update" v3CfgUpdateCalls
-  | .cfg3, .updateStatus => posOf "s.store" v3CfgUpdateStatusCalls < posOf "s.configurations.Update" v3CfgUpdateStatusCalls
-  | .cfg3, .create => posOf "s.store" v3CfgCreateCalls < posOf "s.configurations.Insert" v3CfgCreateCalls
+  | .cfg2, .update => v2CfgUpdateValuesFirst | .cfg2, .updateStatus => v2CfgUpdateStatusValuesFirst
+  | .cfg2, .create => v2CfgCreateValuesFirst
+  | .cfg3, .update => v3CfgUpdateValuesFirst | .cfg3, .updateStatus => v3CfgUpdateStatusValuesFirst
+  | .cfg3, .create => v3CfgCreateValuesFirst
   | _, _ => false
 
 def Kind.isCfg : Kind → Bool
@@ -349,51 +335,66 @@ deriving Repr
 
 def firstFiring (gs : List Guard) (o : Obj) : Bool := gs.any (fun g => g.fires o)
 
+/-- the values half of a configuration write: `store()` on the side map, before the entry is touched.
+    Only `sides` changes. -/
+def valuesHalf (s : Store) (m : Meth) (o : Obj) (last : Key) : Store :=
+  let k := s.kind
+  if k.isCfg ∧ valuesBeforeCas k m then
+    match (if m == .updateStatus then o.avals else o.vals) with
+    | some vs => s.setSide (sideOf k o) (storeVals (s.side (sideOf k o)) vs (aliasOf k vs last))
+    | none => s
+  else s
+
+/-- the end of every wrapper: store the primitive's new state, write `Version` (and `Index`) back into
+    the caller's object on success. -/
+def finish (s : Store) (sp : Key) (o : Obj) (r : Prim Obj × Except Err (PEntry Obj)) : Res :=
+  match r with
+  | (p, .error e) => { store := s.setSpace sp p, obj := o, err := some e }
+  | (p, .ok e) =>
+    let o := { o with version := e.version, index := if createIndexed s.kind then e.index else o.index }
+    { store := s.setSpace sp p, obj := o, err := none }
+
+/-- the defaulting ifs of `Create` (generated ids are written `auto<n>`, n = creates so far in that log). -/
+def defaultIds (s : Store) (o : Obj) : Obj :=
+  let k := s.kind
+  let o := if (createDefaults k).contains ⟨.id, true⟩ ∧ o.id.isEmpty then
+              { o with id := "auto".toList ++ (toString (s.space (spaceOf k o)).lastIndex).toList } else o
+  if (createDefaults k).contains ⟨.key, true⟩ ∧ o.key.isEmpty then
+    { o with key := "auto".toList ++ (toString (s.space (spaceOf k o)).lastIndex).toList } else o
+
+/-- the caller's object as `Create` hands it to the primitive. -/
+def createObj (k : Kind) (o : Obj) : Obj :=
+  let o := if k.isCfg then { o with key := createKey k o, vals := none } else o
+  { o with revision := createRevision k }
+
+/-- the caller's object as `Update` / `UpdateStatus` hand it to the primitive. -/
+def writeObj (k : Kind) (m : Meth) (o : Obj) : Obj :=
+  let o := if revisionInc k m then { o with revision := o.revision + 1 } else o
+  if k.isCfg then (if m == .update then { o with vals := none } else { o with avals := none }) else o
+
 /-- `Create`. `last`: see `storeVals` (v3 configuration only). -/
 def create (s : Store) (o : Obj) (last : Key := []) : Res :=
   let k := s.kind
-  -- defaulting ifs come first in the v2 transaction store, before the guards; in the v3 one too
-  let o := if (createDefaults k).contains "ID == \"\"" ∧ o.id.isEmpty then
-              { o with id := "auto".toList ++ (toString (s.space (spaceOf k o)).lastIndex).toList } else o
-  let o := if (createDefaults k).contains "Key == \"\"" ∧ o.key.isEmpty then
-              { o with key := "auto".toList ++ (toString (s.space (spaceOf k o)).lastIndex).toList } else o
+  -- defaulting ifs come first (v2 and v3 transaction stores), before the guards
+  let o := defaultIds s o
   if firstFiring (guards k .create) o then { store := s, obj := o, err := some .invalid } else
-  -- configuration stores: the values half
-  let s := if k.isCfg ∧ valuesBeforeCas k .create then
-      match o.vals with
-      | some vs => s.setSide (sideOf k o) (storeVals (s.side (sideOf k o)) vs (aliasOf k vs last))
-      | none => s
-    else s
-  let o := if k.isCfg then { o with key := createKey k o, vals := none } else o
-  let o := { o with revision := 1 }
+  let s := valuesHalf s .create o last
+  let o := createObj k o
   let sp := spaceOf k o
   let s := s.touch sp
-  match (s.space sp).insert (createIndexed k) (createKey k o) o with
-  | (p, .error e) => { store := s.setSpace sp p, obj := o, err := some e }
-  | (p, .ok e) =>
-    let o := { o with version := e.version, index := if createIndexed k then e.index else o.index }
-    { store := s.setSpace sp p, obj := o, err := none }
+  finish s sp o ((s.space sp).insert (createIndexed k) (createKey k o) o)
 
 /-- `Update` (m = .update) and `UpdateStatus` (m = .updateStatus). -/
 def write (s : Store) (m : Meth) (o : Obj) (last : Key := []) : Res :=
   let k := s.kind
   if firstFiring (guards k m) o then { store := s, obj := o, err := some .invalid } else
-  let s := if k.isCfg ∧ valuesBeforeCas k m then
-      match (if m == .update then o.vals else o.avals) with
-      | some vs => s.setSide (sideOf k o) (storeVals (s.side (sideOf k o)) vs (aliasOf k vs last))
-      | none => s
-    else s
-  let o := if revisionInc k m then { o with revision := o.revision + 1 } else o
-  let o := if k.isCfg then (if m == .update then { o with vals := none } else { o with avals := none }) else o
+  let s := valuesHalf s m o last
+  let o := writeObj k m o
   let sp := spaceOf k o
   let s := s.touch sp
   -- the indexed map refuses an Update that names neither a key nor an index
   if createIndexed k ∧ (updateKey k o).isEmpty then { store := s.setSpace sp (s.space sp).tick, obj := o, err := some .invalid } else
-  match (s.space sp).update (updateKey k o) o (ifVersionOf k m o) with
-  | (p, .error e) => { store := s.setSpace sp p, obj := o, err := some e }
-  | (p, .ok e) =>
-    let o := { o with version := e.version, index := if createIndexed k then e.index else o.index }
-    { store := s.setSpace sp p, obj := o, err := none }
+  finish s sp o ((s.space sp).update (updateKey k o) o (ifVersionOf k m o))
 
 /-- what a reader is handed for a stored entry: the stored object with `Version` (and `Index`) from the
     entry; configuration stores overlay the side map (`populate`) and `Get` sets `Key`. -/
